@@ -70,6 +70,7 @@ structure RInv (s : Sys) : Prop where
   progwf : ProgWF s.prog
   below : ∀ p w, s.env.router p = some w → p < s.env.nextPid
   zero : Routed s.env.router 0
+  wbound : ∀ p w, s.env.router p = some w → w < s.n
   placed : ∀ w p, known s w p → s.env.router p = some w
   cmds : ∀ w c, c ∈ s.cmdQ w → CmdOK s.env.router s.prog.length (known s w) w c
   evts : ∀ w e, e ∈ s.evtQ w → EvtOK s.env.router s.prog.length w e
@@ -137,17 +138,30 @@ theorem RInv.handleSpawn {s : Sys} (h : RInv s) {w0 : Wid} {caller : Pid} {fn : 
     RInv (handleSpawn s caller fn regs coloc) := by
   obtain ⟨hc, hfn, hregs⟩ := he
   simp only [QM.Sys.handleSpawn]
-  generalize placement s coloc s.env.nextPid = w
+  have hwn : placement s coloc s.env.nextPid < s.n := by
+    unfold placement
+    split
+    · rename_i w' hb
+      cases hco : coloc with
+      | none => simp [hco] at hb
+      | some o => simp [hco] at hb; exact h.wbound o w' hb
+    · exact Nat.mod_lt _ (Nat.lt_of_le_of_lt (Nat.zero_le _) (h.wbound 0 _ (Option.get_mem h.zero)))
+  generalize placement s coloc s.env.nextPid = w at hwn ⊢
   have hext := ext_insert_fresh h w
   -- the state after allocation
   have h1 : RInv { s with env := { s.env with nextPid := s.env.nextPid + 1, router := upd s.env.router s.env.nextPid (some w) } } := by
-    refine { nofault := h.nofault, progwf := h.progwf, below := ?_, zero := hext.routed h.zero, placed := ?_,
+    refine { nofault := h.nofault, progwf := h.progwf, below := ?_, zero := hext.routed h.zero, wbound := ?_, placed := ?_,
              cmds := ?_, evts := ?_, regs := ?_, awaiters := ?_ }
     · intro p w' hp
       simp only [upd_apply] at hp
       split at hp
       · rename_i e; subst e; exact Nat.lt_succ_self _
       · have := h.below p w' hp; exact Nat.lt_succ_of_lt this
+    · intro p w' hp
+      simp only [upd_apply] at hp
+      split at hp
+      · simp only [Option.some.injEq] at hp; subst hp; exact hwn
+      · exact h.wbound p w' hp
     · intro w' p hp; exact hext _ _ (h.placed w' p hp)
     · intro w' c hc'; exact (h.cmds w' c hc').mono hext (fun _ hk => hk)
     · intro w' e he'; exact (h.evts w' e he').mono hext
@@ -343,7 +357,7 @@ theorem SameProcs.finish {w : WorkerSt} {cur : Pid} {x0 x : Proc} (hx : w.procs 
 /-- Replacing worker `i` by a state with the same processes preserves the routing invariant. -/
 theorem RInv.setWk_same {s : Sys} (h : RInv s) (i : Wid) {w' : WorkerSt} (hs : SameProcs (s.wk i) w') :
     RInv (s.setWk i w') := by
-  refine { nofault := h.nofault, progwf := h.progwf, below := h.below, zero := h.zero, placed := ?_, cmds := ?_,
+  refine { nofault := h.nofault, progwf := h.progwf, below := h.below, zero := h.zero, wbound := h.wbound, placed := ?_, cmds := ?_,
            evts := h.evts, regs := ?_, awaiters := ?_ }
   · intro w p hp
     unfold known at hp; simp only [setWk_wk, upd_apply] at hp
@@ -378,7 +392,7 @@ theorem RInv.setWk {s : Sys} (h : RInv s) (i : Wid) {w' : WorkerSt}
     (hregs : ∀ p x, w'.procs p = some x → ∀ q ∈ x.regs, Routed s.env.router q)
     (haw : ∀ t a, a ∈ w'.awaitersFor t → Routed s.env.router a) :
     RInv (s.setWk i w') := by
-  refine { nofault := h.nofault, progwf := h.progwf, below := h.below, zero := h.zero, placed := ?_, cmds := ?_,
+  refine { nofault := h.nofault, progwf := h.progwf, below := h.below, zero := h.zero, wbound := h.wbound, placed := ?_, cmds := ?_,
            evts := h.evts, regs := ?_, awaiters := ?_ }
   · intro w p hp
     unfold known at hp; simp only [setWk_wk, upd_apply] at hp
